@@ -101,6 +101,30 @@ def run(ctx):
     chosen = witnesses(ctx, 60, 700)
     zoo_run(ctx, chosen, [({"GODEBUG": "clobberfree=1"}, "logging off"),
                           ({"GODEBUG": "clobberfree=1", "VERIF_LOG": "debug", "VERIF_QUIET": "1"}, "debug logging")])
+    # "from any goroutine": eight goroutines call one mocked function at the same time, each with its own argument (Apply callback,
+    # conditional stub, variadic target), with logging off and under debug logging; records in the zoo's format, judged by Trace_Dispatch
+    from lib.replay import drv_binary
+    pbin = drv_binary(ctx)
+    for env, tag in (({}, "logging off"), ({"VERIF_LOG": "debug", "VERIF_QUIET": "1"}, "debug logging"), ({"VERIF_LOG": "trace", "VERIF_QUIET": "1"}, "trace logging")):
+        pout = ctx.path("parallel.ndjson")
+        if os.path.exists(pout):
+            os.remove(pout)
+        rc, o = ctx.run_bin(pbin, "^TestVerifParallel$", env=dict(env, VERIF_OUT=pout), timeout=600)
+        recs = vlib.read_ndjson(pout) if os.path.exists(pout) else []
+        if rc != 0 or not recs:
+            ctx.violation("parallel callers of a mocked function crashed the process (%s): %s" % (tag, o[-700:]), {"family": "zoo", "kind": "crash", "logging": tag, "tail": o[-2000:]})
+            continue
+        vlib.write_ndjson(os.path.join(ctx.specdir(), "trace.ndjson"), recs)
+        t = ctx.tlc("Trace_Dispatch", "Trace_Dispatch.cfg", workers=1, timeout=600, tag="judge %d parallel-caller records (%s)" % (len(recs), tag))
+        summ = [x for x in ctx.behaviours(t) if isinstance(x, dict) and x.get("summary")]
+        if not summ:
+            raise vlib.Broken("no summary from Trace_Dispatch: " + t["out"][-800:])
+        for what, idx in summ[0]["bad"]:
+            e = recs[idx - 1]
+            ctx.violation("signature %s, %s, %s (%s): %s" % (e["desc"], e["mode"], e["form"], tag, e["detail"]),
+                          {"family": "zoo", "kind": what, "desc": e["desc"], "mode": e["mode"], "moment": e["moment"], "form": e["form"], "detail": e["detail"], "logging": tag})
+        ctx.cov["traces_validated_against_impl"] += len(recs)
+        ctx.count(len(recs))
     # lifecycle: calls at TLC-chosen points of random histories (incl. Origin) through 4 handle kinds
     base = {"B": '{"b1"}', "T": '{"f", "g"}', "CB": '{"c1", "c2"}', "RS": "<- RS_12", "A": "{0, 1}", "Ops": "<- AllOps"}
     behs = life.sim(ctx, base, 150 if q else 3000, 10, "random lifecycles with calls")
